@@ -26,14 +26,36 @@ func verifCommitHarness() {
 		// the node's join was committed (it is in the LATEST recorded set, effective
 		// six rounds later) but it is not a validator of this block's round
 		future := peers.NewPeerSet(append(append([]*peers.Peer{}, vc.peers...), verifPeer(self)))
-		if err := vc.store.SetPeerSet(7, future); err != nil {
+		if err := vc.store.SetPeerSet(9, future); err != nil {
 			panic(err)
 		}
 		c.validators = future
 	}
 	appFails := verifChoice("applicationFails", 2) == 1
 	stateHash := []byte{verifNondetByte("stateHash0"), verifNondetByte("stateHash1")}
-	block := hg.NewBlock(0, 1, []byte("framehash"), vc.peers, [][]byte{[]byte("tx")}, nil, 7)
+	// 0..2 membership requests in the block; the application accepts or refuses
+	// each (symbolic answers)
+	nitx := verifChoice("requestsInTheBlock", 3)
+	var itxs []hg.InternalTransaction
+	var answers []bool
+	var receipts []hg.InternalTransactionReceipt
+	for i := 0; i < nitx; i++ {
+		itx := hg.NewInternalTransactionJoin(*verifPeer(6 + i))
+		ih, _ := itx.Body.Hash()
+		itx.Signature = verifSignature(verifKey(6+i), ih, true)
+		itxs = append(itxs, itx)
+		acc := verifNondetBool(fmt.Sprintf("applicationAccepts%d", i))
+		answers = append(answers, acc)
+		if acc {
+			receipts = append(receipts, itx.AsAccepted())
+		} else {
+			receipts = append(receipts, itx.AsRefused())
+		}
+	}
+	if receipts == nil {
+		receipts = []hg.InternalTransactionReceipt{}
+	}
+	block := hg.NewBlock(0, 1, []byte("framehash"), vc.peers, [][]byte{[]byte("tx")}, itxs, 7)
 	bodyBefore, _ := block.Body.Hash()
 	calls := 0
 	sigsAtCallback := -1
@@ -43,7 +65,7 @@ func verifCommitHarness() {
 		if appFails {
 			return proxy.CommitResponse{}, fmt.Errorf("application error")
 		}
-		return proxy.CommitResponse{StateHash: stateHash, InternalTransactionReceipts: []hg.InternalTransactionReceipt{}}, nil
+		return proxy.CommitResponse{StateHash: stateHash, InternalTransactionReceipts: receipts}, nil
 	}
 	if err := vc.store.SetBlock(block); err != nil {
 		panic(err)
@@ -60,6 +82,19 @@ func verifCommitHarness() {
 		stored, gerr := vc.store.GetBlock(0)
 		verifAssert("stored-block-carries-the-applications-state-hash", gerr == nil && len(stored.StateHash()) == 2 && stored.StateHash()[0] == stateHash[0] && stored.StateHash()[1] == stateHash[1])
 		verifAssert("delivered-body-otherwise-unchanged", gerr == nil && stored.Index() == 0 && stored.RoundReceived() == 1 && len(stored.Transactions()) == 1 && string(stored.Transactions()[0]) == "tx" && string(stored.FrameHash()) == "framehash")
+		// what the node reports for the block keeps the application's receipts as given
+		if gerr == nil {
+			got := stored.InternalTransactionReceipts()
+			same := len(got) == nitx
+			if same {
+				for i := range got {
+					if got[i].Accepted != answers[i] || got[i].InternalTransaction.Body.Peer.PubKeyHex != verifPeer(6+i).PubKeyHex {
+						same = false
+					}
+				}
+			}
+			verifAssert("stored-block-keeps-the-applications-receipts-as-given", same)
+		}
 		if member {
 			verifAssert("member-signs-the-delivered-block", len(sigs) == 1)
 			if len(sigs) == 1 && gerr == nil {
